@@ -242,17 +242,18 @@ impl<'a> DataRowIteratorTestData<'a> {
     #[verifier::prophetic]
     spec fn td_inv(&self) -> bool { exists|w: int| self.td_inv_w(w) }
 
-    /// `changed` flags of the statement (C06): every column on the first row, afterwards those whose evaluated entry differs
-    spec fn changed_spec(prev: Option<Vec<DataEntry>>, e: Seq<DataEntry>) -> Seq<bool> {
-        Seq::new(e.len(), |c: int| match prev { Some(p) => e[c] != p@[c], None => true })
-    }
-
-    /// the evaluated row `row` presents the abstract row `head` (C06, C07), with changed flags relative to `prev`
+    /// the evaluated row `row` presents the abstract row `head` (C06, C07). About the `changed` flags only what the statement
+    /// of C06 says: an input that is not flagged carries the value it had in the previous vector (`prev` = the entries of the
+    /// previous row), and inputs the header omits are never flagged. Flagging more than necessary is within the statement.
     spec fn row_matches(&self, row: EvaluatedRow<'a>, head: RowS, prev: Option<Vec<DataEntry>>) -> bool {
         &&& row.line == head.line
         &&& row.update_output == head.update_output
         &&& row.inputs@.len() == self.input_indices@.len()
-        &&& (forall|k: int| 0 <= k < row.inputs@.len() ==> #[trigger] row.inputs@[k] == self.input_entry_spec(k, head.entries, Self::changed_spec(prev, head.entries)))
+        &&& (forall|k: int| 0 <= k < row.inputs@.len() ==> (#[trigger] row.inputs@[k]).signal == self.input_entry_spec(k, head.entries, Seq::empty()).signal
+                && row.inputs@[k].value == self.input_entry_spec(k, head.entries, Seq::empty()).value
+                && (self.input_indices@[k] is Default ==> !row.inputs@[k].changed)
+                && (!row.inputs@[k].changed && self.input_indices@[k] is Entry ==>
+                    (prev matches Some(p) && self.input_entry_spec(k, p@, Seq::empty()).value == row.inputs@[k].value)))
         &&& row.expected@.len() == self.expected_indices@.len()
         &&& (forall|k: int| 0 <= k < row.expected@.len() ==> #[trigger] row.expected@[k] == self.expected_entry_spec(k, head.entries))
     }
@@ -305,7 +306,7 @@ proof fn lemma_stmts_shape_mono(ss: Seq<Stmt>, w: int, p: spec_fn(int) -> bool, 
     assert forall|i: int| 0 <= i < ss.len() implies stmt_shape(#[trigger] ss[i], w, q) by { lemma_stmt_shape_mono(ss[i], w, p, q); }
 }
 
-/// dropping the head statement of the first block keeps the shape
+/// dropping statements from the head of the first block keeps the shape
 proof fn lemma_fails_shape(c1: Config, c2: Config, w: int, p: spec_fn(int) -> bool)
     requires fails(c1, c2), k_shape(c1.k, w, p)
     ensures k_shape(c2.k, w, p)
@@ -314,10 +315,11 @@ proof fn lemma_fails_shape(c1: Config, c2: Config, w: int, p: spec_fn(int) -> bo
     lemma_reach_shape(c1, cm, n, w, p);
     if c2.k != cm.k {
         let ss = cm.k[0]->Block_0;
+        let j = choose|j: int| 0 <= j <= ss.len() && #[trigger] wj(j) && c2.k == cm.k.update(0, Frame::Block(ss.skip(j)));
         assert forall|i: int| 0 <= i < c2.k.len() implies frame_shape(#[trigger] c2.k[i], w, p) by {
             if i == 0 {
                 assert(frame_shape(cm.k[0], w, p));
-                assert forall|j: int| 0 <= j < ss.skip(1).len() implies stmt_shape(#[trigger] ss.skip(1)[j], w, p) by { assert(ss.skip(1)[j] == ss[j + 1]); }
+                assert forall|m: int| 0 <= m < ss.skip(j).len() implies stmt_shape(#[trigger] ss.skip(j)[m], w, p) by { assert(ss.skip(j)[m] == ss[m + j]); }
             } else { assert(c2.k[i] == cm.k[i]); }
         }
     }
